@@ -117,6 +117,17 @@ def make_chain(rnd, naming):
                 else:
                     cur = call("SelectMany", cur, lam([v], g.seq(env, tgt, 1)))
                     shape = tgt[1]
+            elif not last and rnd.random() < 0.15 and [x for x in g.sources(env, ("seq_any",)) if x[1][1][0] == "obj"]:
+                # package through First(): First(Select(seq, lambda w: PACK(w, v)))
+                e, s = rnd.choice([x for x in g.sources(env, ("seq_any",)) if x[1][1][0] == "obj"])
+                w = g.fresh(env)
+                inner = dict(env)
+                inner[w] = s[1]
+                tgt = g.pack_shape(inner, 1)
+                cur = call("Select", cur, lam([v], call("First", call("Select", e, lam([w], g.expr(inner, tgt, 2))))))
+                last_pack_stage = i
+                shape = tgt
+                g.feat.add("packaged-through-First")
             else:
                 if last and not final_packaged:
                     tgt = NUM
